@@ -149,6 +149,12 @@ def user_row_fn(spec):
             if isinstance(new.get(f), str):
                 new[f] = new[f].upper() + '^'
             return new
+    elif name == 'append_nested':
+        def row_fn(row):                       # edits a nested value in place
+            if isinstance(row.get(f), list):
+                row[f].append('+')
+            elif isinstance(row.get(f), dict):
+                row[f]['+'] = True
     elif name == 'nullify':
         def row_fn(row):
             row[f] = None
@@ -560,8 +566,14 @@ def _draw_spec(draw, state, kinds, counter):
     if k == 'update_stats':
         return {'k': k, 'key': 'stat%d' % n, 'value': n}
     if k == 'row_fn':
-        fn = draw(st.sampled_from(['inc_int', 'upper', 'inc_int']))
-        cand = _by_type(res, ['integer']) if fn == 'inc_int' else _by_type(res, ['string'])
+        fn = draw(st.sampled_from(['inc_int', 'upper', 'inc_int', 'append_nested']))
+        if _by_type(res, ['array', 'object']) and draw(st.booleans()):
+            fn = 'append_nested'            # nested values are shared by shallow copies: edit them when there are any
+        cand = _by_type(res, ['integer']) if fn == 'inc_int' else _by_type(res, ['string']) if fn == 'upper' else \
+            _by_type(res, ['array', 'object'])
+        if not cand and fn == 'append_nested':
+            fn = 'inc_int'
+            cand = _by_type(res, ['integer'])
         need(cand)
         return {'k': k, 'fn': fn, 'field': draw(st.sampled_from(cand)), 'form': draw(st.sampled_from(FORMS))}
     if k == 'rows_fn':
@@ -633,6 +645,17 @@ def programs(draw, min_len=1, max_len=6, kinds=None, pkg=None, favour_mutators=T
             if ftype in ('integer', 'string'):
                 spec = {'k': 'row_fn', 'fn': 'inc_int' if ftype == 'integer' else 'upper', 'field': fname,
                         'form': draw(st.sampled_from(FORMS))}
+        if favour_mutators and steps and steps[-1]['k'] == 'duplicate' and 'row_fn' in kinds and draw(st.booleans()):
+            # edit, in place, a field of the resource that was just duplicated (nested values first: they are
+            # shared by shallow copies)
+            src = next((r for r in state if r['name'] == steps[-1]['source']), None)
+            if src is not None:
+                nested = _by_type(src, ['array', 'object'])
+                ints = [x for x in _by_type(src, ['integer'])]
+                if nested:
+                    spec = {'k': 'row_fn', 'fn': 'append_nested', 'field': draw(st.sampled_from(nested)), 'form': draw(st.sampled_from(FORMS))}
+                elif ints:
+                    spec = {'k': 'row_fn', 'fn': 'inc_int', 'field': draw(st.sampled_from(ints)), 'form': draw(st.sampled_from(FORMS))}
         if spec is None:
             continue
         new_desc = simulate(spec, descriptor, ctx)
